@@ -203,7 +203,7 @@ func run(c *core.Ctx) {
 		t := &tcase{f: univ.Gen(p.name), dyn: univ.Dyn(p.name)}
 		_, t.hasMI = t.f.MT.(*impl.MessageInfo)
 		md := t.f.MT.Descriptor()
-		recs := univ.WireAlphabet(md, univ.WireOpt{AllFields: p.wireAll, Small: p.small, Depth: 1})
+		recs := univ.WireAlphabet(md, univ.WireOpt{AllFields: p.wireAll, Small: p.small, Depth: 1, NonMinUnknownTag: true})
 		total := univ.TupleCount(len(recs), p.wireN)
 		univ.ForTuples(c, len(recs), p.wireN, func(idx []int) {
 			in, name := univ.Concat(recs, idx)
